@@ -208,3 +208,32 @@ Theorem C07_stale_key_first_conversion :
     stale_key HT FPT hash fp (cache_extend [] sites) c = real_key HT FPT hash fp c.
 Proof. exact stale_key_first_conversion. Qed.
 Print Assumptions C07_stale_key_first_conversion.
+
+(* ---- call-site constants passed as operands: the key holds only their types, so a definition is shared
+        across different constant values.  Sound iff the body is a function of the key's inputs only. *)
+Theorem C07_generic_body_sound :
+  forall (site K C R : Type) (K_eq_dec : forall a b : K, {a = b} + {a <> b}) (key : site -> K)
+         (nin nout : site -> nat) (fam : site -> nat * bool) (cval : site -> C) (body : site -> C -> R),
+  (forall c1 c2, key c1 = key c2 -> body c1 = body c2) ->
+  forall sites c, In c (st_calls _ _ _ (lower_sites site K (C -> R) K_eq_dec key body nin nout fam sites)) ->
+    d_sem _ _ (c_def _ _ _ c) (cval (c_site _ _ _ c)) = body (c_site _ _ _ c) (cval (c_site _ _ _ c)).
+Proof. exact generic_body_sound. Qed.
+Print Assumptions C07_generic_body_sound.
+
+(* a body specialised on the defining site's constant gives the wrong result at the second site *)
+Theorem C07_specialised_body_unsound :
+  forall (site K C R : Type) (K_eq_dec : forall a b : K, {a = b} + {a <> b}) (key : site -> K)
+         (nin nout : site -> nat) (fam : site -> nat * bool) (cval : site -> C) (body : site -> C -> R) c1 c2,
+  key c1 = key c2 -> body c1 (cval c2) <> body c2 (cval c2) ->
+  exists sites c, In c (st_calls _ _ _ (lower_sites site K (C -> R) K_eq_dec key body nin nout fam sites)) /\
+    d_sem _ _ (c_def _ _ _ c) (cval (c_site _ _ _ c)) <> body (c_site _ _ _ c) (cval (c_site _ _ _ c)).
+Proof. exact specialised_body_unsound. Qed.
+Print Assumptions C07_specialised_body_unsound.
+
+Theorem C07_real_key_ignores_operand_values :
+  forall (HT FPT : Type) (hash : list nat -> HT) (fp : nat -> FPT) (c1 c2 : rsite),
+  s_qualname c1 = s_qualname c2 -> s_unique c1 = s_unique c2 -> s_is_class c1 = s_is_class c2 -> s_obj c1 = s_obj c2 ->
+  s_inst_type c1 = s_inst_type c2 -> s_state c1 = s_state c2 -> s_in_avals c1 = s_in_avals c2 -> s_params c1 = s_params c2 ->
+  real_key HT FPT hash fp c1 = real_key HT FPT hash fp c2.
+Proof. exact real_key_ignores_operand_values. Qed.
+Print Assumptions C07_real_key_ignores_operand_values.
